@@ -8,3 +8,6 @@ import "verifharness/sup"
 
 func MarshalStamp(s *sup.Stamp) ([]byte, error) { return sup.MarshalStamp(s) }
 func UnmarshalStamp(b []byte, s *sup.Stamp) error { return sup.UnmarshalStamp(b, s) }
+
+// Tag is a type of this package (a target for `bind:`); verifharness/altsup/beta/codec has one of the same name.
+type Tag string
